@@ -15,7 +15,7 @@ def run(ctx):
     # 1. design level, exhaustive: journal/barrier mechanism = plain map with snapshots; Stage = canonical content
     #    quick: one address, 2 keys, <= 5 operations (deep: barrier x checkpoints x stage/commit/reopen); the wide universe
     #    (2 addresses, master, code, 3 values) is checked by the exporting config of step 2 (<= 3 operations)
-    ctx.tlc_must_hold(sc.SUB, "MC_StateJournal", cfg="MC_StateJournal_quick.cfg" if q else "MC_StateJournal_narrow7.cfg",
+    ctx.tlc_must_hold(sc.SUB, "MC_StateJournal", cfg="MC_StateJournal_quick.cfg" if q else "MC_StateJournal_narrow6.cfg",
                       workers=4 if q else 8, timeout=900 if q else 3600, heap="4g" if q else "8g",
                       label="journal: exhaustive, 1 address x 2 keys x values {0,1}, 10 bases, deep")
     if not q:
@@ -44,7 +44,7 @@ def run(ctx):
 
     # 4. implementation -> model: seeded random histories over large universes, validated by Trace_StateJournal.tla
     demo_ok = sc.binding_demo(ctx, binp)
-    events, stats, how = sc.record(ctx, binp, 10 if q else 150, 450 if q else 700, "random")
+    events, stats, how = sc.record(ctx, binp, 12 if q else 150, 500 if q else 700, "random")
     accepted = 0
     if events is not None:
         accepted = sc.validate(ctx, events, stats, "random", how)
